@@ -590,9 +590,33 @@ func extStringsTrimSuffix(fr *frame, args []value) value {
 	}
 	has := extStringsHasSuffix(fr, args)
 	if fr.i.ctx.DecideValue(has) {
+		c := fr.i.ctx
+		ps := partsOf(args[0])
+		suf, sufLit := args[1].(string)
+		if n := len(ps); sufLit && n > 0 {
+			last := ps[n-1]
+			// the suffix lies inside the last literal part: strip it there
+			if last.Kind == PLit && len(last.Lit) >= len(suf) {
+				head := append([]Part{}, ps[:n-1]...)
+				if rest := last.Lit[:len(last.Lit)-len(suf)]; rest != "" {
+					head = append(head, Part{Kind: PLit, Lit: rest})
+				}
+				return mkRope(head)
+			}
+			// the last part is a String atom a = r ++ suffix: only that atom is
+			// split, and r contains no byte a cannot contain
+			if last.Kind == PAtom {
+				r := c.NewStr("trimsuf")
+				c.addPC(fmt.Sprintf("(= %s (str.++ %s %s))", last.Lit, r, smtStrLit(suf)))
+				if ai := c.Atoms[last.Lit]; ai != nil {
+					c.Atoms[r] = &AtomInfo{Name: r, Class: ai.Class, NoBytes: ai.NoBytes}
+				}
+				return mkRope(append(append([]Part{}, ps[:n-1]...), Part{Kind: PAtom, Lit: r}))
+			}
+		}
 		// s = r ++ suffix
-		r := fr.i.ctx.NewStr("trimsuf")
-		fr.i.ctx.addPC(fmt.Sprintf("(= %s (str.++ %s %s))", StrTerm(args[0]), r, StrTerm(args[1])))
+		r := c.NewStr("trimsuf")
+		c.addPC(fmt.Sprintf("(= %s (str.++ %s %s))", StrTerm(args[0]), r, StrTerm(args[1])))
 		return AtomRope(r)
 	}
 	return args[0]
